@@ -292,7 +292,7 @@ def register(reg):
     @reg.contract
     class URLInit(Contract):
         key = URL + ".__init__"
-        props = ("C19",)
+        props = ("C19", "C03")
         suspends = False
         variants = [
             ("url_bytes", {"url": "bytes", "scheme": "bytes", "host": "bytes", "port": "opt:int", "target": "bytes"}),
@@ -324,7 +324,7 @@ def register(reg):
                     ("scheme_is_rfc_scheme", ("C19",), F(c, s, "URL.scheme") == rfc_scheme(b)),
                     ("host_is_lowercased_rfc_host", ("C19",), F(c, s, "URL.host") == rfc_host(b)),
                     ("port_is_rfc_port", ("C19",), z3.And(port.none == z3.Not(rfc_has_port(b)), z3.Implies(rfc_has_port(b), port.val.t == rfc_port(b)))),
-                    ("target_is_complete_path_plus_query", ("C19",), F(c, s, "URL.target") == target),
+                    ("target_is_complete_path_plus_query", ("C19", "C03"), F(c, s, "URL.target") == target),
                 ]
                 if isinstance(u, VStr):
                     out.append(("str_url_is_ascii", ("C19",), is_ascii_str(u.t)))
